@@ -35,6 +35,7 @@ import (
 	cqbft "github.com/obolnetwork/charon/core/consensus/qbft"
 	pbv1 "github.com/obolnetwork/charon/core/corepb/v1"
 	"github.com/obolnetwork/charon/core/dutydb"
+	"github.com/obolnetwork/charon/core/fetcher"
 	"github.com/obolnetwork/charon/core/parsigdb"
 	"github.com/obolnetwork/charon/core/parsigex"
 	"github.com/obolnetwork/charon/core/sigagg"
@@ -160,6 +161,39 @@ func (f *stubFetch) RegisterAggSigDB(func(context.Context, core.Duty, core.PubKe
 func (f *stubFetch) RegisterAwaitAttData(func(context.Context, uint64, uint64) (*eth2p0.AttestationData, error)) {
 }
 
+// nodeBN is the beacon node as one cluster node's fetcher sees it: the node's own head (attestation data
+// variant) and its own candidate block (nodes with the same variant are served the same block).
+type nodeBN struct {
+	*fakebn.BN
+	variant   byte
+	blockSeed int64
+	proposer  eth2p0.ValidatorIndex
+}
+
+func (b nodeBN) AttestationData(_ context.Context, opts *eth2api.AttestationDataOpts) (*eth2api.Response[*eth2p0.AttestationData], error) {
+	ad := attData(uint64(opts.Slot), b.variant)
+	return &eth2api.Response[*eth2p0.AttestationData]{Data: &ad}, nil
+}
+
+func (b nodeBN) Proposal(_ context.Context, opts *eth2api.ProposalOpts) (*eth2api.Response[*eth2api.VersionedProposal], error) {
+	p := genBlock(b.blockSeed)
+	setHeader(p, opts.Slot, b.proposer, opts.RandaoReveal, b.variant)
+	return &eth2api.Response[*eth2api.VersionedProposal]{Data: p}, nil
+}
+
+// tapFetch records every candidate set a node's fetcher hands to its subscribers (consensus proposes it).
+type tapFetch struct {
+	core.Fetcher
+	rec func(core.Duty, core.UnsignedDataSet)
+}
+
+func (t tapFetch) Subscribe(fn func(context.Context, core.Duty, core.UnsignedDataSet) error) {
+	t.Fetcher.Subscribe(func(ctx context.Context, d core.Duty, set core.UnsignedDataSet) error {
+		t.rec(d, set)
+		return fn(ctx, d, set)
+	})
+}
+
 type published struct {
 	node   int
 	where  string
@@ -240,6 +274,7 @@ func TestC01Cluster(t *testing.T) {
 	if vstat.Thorough() {
 		maxN = 7
 	}
+	outerT = t
 	rapid.Check(t, func(rt *rapid.T) {
 		rapid.SyncTest(rt, func(rt *rapid.T) { runCase(rt, maxN) })
 	})
@@ -287,7 +322,19 @@ func runCase(rt *rapid.T, maxN int) {
 	for i := range nodeVariant {
 		nodeVariant[i] = variants[rapid.IntRange(0, nVariants-1).Draw(rt, "variant")]
 	}
+	// half of the cases run the production fetcher (over a per-node view of the beacon node) instead of the stub;
+	// those may also run the proposer flow: randao reveal -> aggregated randao -> block fetch -> consensus -> signed block
+	realFetch := rapid.Bool().Draw(rt, "productionFetcher")
+	withProposer := realFetch && rapid.IntRange(0, 2).Draw(rt, "withProposer") != 0
+	variantSeed := map[byte]int64{}
+	for _, v := range variants {
+		variantSeed[v] = int64(rapid.IntRange(0, 11).Draw(rt, "blockSeed"))
+	}
+	proposerVal := vals[rapid.IntRange(0, nVals-1).Draw(rt, "proposer")]
 	dutySlot := uint64(1)
+	propDuty := core.NewProposerDuty(dutySlot)
+	propDefs := core.DutyDefinitionSet{proposerVal.corePub: core.NewProposerDefinition(&eth2v1.ProposerDuty{PubKey: eth2p0.BLSPubKey(proposerVal.group), Slot: eth2p0.Slot(dutySlot), ValidatorIndex: proposerVal.index})}
+	proposed := map[string]bool{}
 	attDuty := core.NewAttesterDuty(dutySlot)
 	syncDuty := core.NewSyncMessageDuty(dutySlot)
 	exitDuty := core.NewVoluntaryExit(0)
@@ -333,8 +380,8 @@ func runCase(rt *rapid.T, maxN int) {
 		must(err)
 		asdb := aggsigdb.NewMemDB(core.NewDeadliner(ctx, "aggsigdb", deadlineFn))
 		goFn(func() { asdb.Run(ctx) })
-		nd.sched = &stubSched{defs: map[core.Duty]core.DutyDefinitionSet{attDuty: attDefs}}
-		fetch := &stubFetch{candidate: func(d core.Duty, defs core.DutyDefinitionSet) core.UnsignedDataSet {
+		nd.sched = &stubSched{defs: map[core.Duty]core.DutyDefinitionSet{attDuty: attDefs, propDuty: propDefs}}
+		var fetch core.Fetcher = &stubFetch{candidate: func(d core.Duty, defs core.DutyDefinitionSet) core.UnsignedDataSet {
 			if d.Type != core.DutyAttester {
 				return nil
 			}
@@ -352,7 +399,20 @@ func runCase(rt *rapid.T, maxN int) {
 			decided = append(decided, decision{i, d, string(b)})
 			mu.Unlock()
 		}
-		core.Wire(nd.sched, fetch, cons, tapDutyDB{ddb, decidedRec}, vapi, psdb, psex, agg, tapAggDB{asdb, rec("aggsigdb")}, tapBcast{rec("broadcast")})
+		if realFetch {
+			gb, err := fetcher.NewGraffitiBuilder(nil, nil, true, bn)
+			must(err)
+			fetch, err = fetcher.New(nodeBN{bn, nodeVariant[i], variantSeed[nodeVariant[i]], proposerVal.index}, func(core.PubKey) string { return "0x0000000000000000000000000000000000000000" }, false, gb, 0, false)
+			must(err)
+		}
+		proposedRec := func(d core.Duty, set core.UnsignedDataSet) {
+			b, err := json.Marshal(set)
+			must(err)
+			mu.Lock()
+			proposed[d.String()+string(b)] = true
+			mu.Unlock()
+		}
+		core.Wire(nd.sched, tapFetch{fetch, proposedRec}, cons, tapDutyDB{ddb, decidedRec}, vapi, psdb, psex, agg, tapAggDB{asdb, rec("aggsigdb")}, tapBcast{rec("broadcast")})
 		nd.vapi = vapi
 	}
 
@@ -369,7 +429,13 @@ func runCase(rt *rapid.T, maxN int) {
 	logf := func(format string, a ...any) { trace = append(trace, fmt.Sprintf(format, a...)) }
 
 	// the duty's start: attester duties start a third into the slot
-	time.Sleep(time.Until(genesis.Add(time.Duration(dutySlot)*12*time.Second + 4*time.Second)))
+	// (with the proposer flow the case begins at the slot's start: the randao and proposer duties expire
+	// a third of a slot plus a margin later, and a late block is as interesting as a timely one)
+	startOffset, advanceUnit := 4*time.Second, 100*time.Millisecond
+	if withProposer {
+		startOffset, advanceUnit = 0, time.Duration(rapid.SampledFrom([]int{10, 25, 100}).Draw(rt, "advanceUnit_ms"))*time.Millisecond
+	}
+	time.Sleep(time.Until(genesis.Add(time.Duration(dutySlot)*12*time.Second + startOffset)))
 
 	// per node: does its validator client submit all validators in one call or one by one
 	batchVC := make([]bool, n)
@@ -434,6 +500,30 @@ func runCase(rt *rapid.T, maxN int) {
 					_ = nd.vapi.SubmitAttestations(nd.ctx, &eth2api.SubmitAttestationsOpts{Attestations: []*eth2spec.VersionedAttestation{att}})
 				})
 			}
+		case core.DutyProposer:
+			for _, sub := range nd.sched.subs {
+				goFn(func() { _ = sub(nd.ctx, d, propDefs) })
+			}
+			// the validator client: reveal randao (partial), wait for the agreed block, sign it, submit it
+			goFn(func() {
+				r, err := specsign.Sign(bn, proposerVal.shares[i+1], core.NewSignedRandao(eth2p0.Epoch(d.Slot/32), eth2p0.BLSSignature{}))
+				must(err)
+				resp, err := nd.vapi.Proposal(nd.ctx, &eth2api.ProposalOpts{Slot: eth2p0.Slot(d.Slot), RandaoReveal: r.Signature().ToETH2()})
+				if err != nil {
+					return
+				}
+				signed := signedOf(resp.Data)
+				cv, err := core.NewVersionedSignedProposal(signed)
+				must(err)
+				s, err := specsign.Sign(bn, proposerVal.shares[i+1], cv)
+				must(err)
+				*sigField(signed) = s.Signature().ToETH2()
+				if signed.Blinded {
+					_ = nd.vapi.SubmitBlindedProposal(nd.ctx, &eth2api.SubmitBlindedProposalOpts{Proposal: blindedOf(signed)})
+				} else {
+					_ = nd.vapi.SubmitProposal(nd.ctx, &eth2api.SubmitProposalOpts{Proposal: signed})
+				}
+			})
 		case core.DutySyncMessage:
 			if batchVC[i] && len(vals) > 1 {
 				goFn(func() {
@@ -491,6 +581,9 @@ func runCase(rt *rapid.T, maxN int) {
 	if rapid.IntRange(0, 3).Draw(rt, "withExit") == 0 {
 		duties = append(duties, exitDuty)
 	}
+	if withProposer {
+		duties = append(duties, propDuty)
+	}
 	equivocations, crashes, lateStarts, otherFork := 0, 0, 0, 0
 
 	deliver := func(fr *memnet.Frame) {
@@ -529,7 +622,7 @@ func runCase(rt *rapid.T, maxN int) {
 				logf("drop")
 			}
 		case op < 86:
-			d := time.Duration(rapid.IntRange(1, 20).Draw(rt, "advance")) * 100 * time.Millisecond
+			d := time.Duration(rapid.IntRange(1, 20).Draw(rt, "advance")) * advanceUnit
 			time.Sleep(d)
 			logf("advance(%v)", d)
 		case op < 89 && crashes < crashBudget:
@@ -565,9 +658,24 @@ func runCase(rt *rapid.T, maxN int) {
 					}
 				}
 				set := core.ParSignedDataSet{}
+				sendDuty := d
+				if d.Type == core.DutyProposer && rapid.IntRange(0, 2).Draw(rt, "byzRandao") == 0 {
+					sendDuty = core.NewRandaoDuty(d.Slot) // a partial randao reveal for another epoch
+				}
 				for _, v := range vals {
+					if d.Type == core.DutyProposer && v != proposerVal {
+						continue
+					}
 					var data core.SignedData
-					switch d.Type {
+					switch sendDuty.Type {
+					case core.DutyRandao:
+						data = core.NewSignedRandao(eth2p0.Epoch(variant-'a'), eth2p0.BLSSignature{})
+					case core.DutyProposer:
+						p := genBlock(variantSeed[variant])
+						setHeader(p, eth2p0.Slot(d.Slot), v.index, eth2p0.BLSSignature{}, variant)
+						cv, err := core.NewVersionedSignedProposal(signedOf(p))
+						must(err)
+						data = cv
 					case core.DutyAttester:
 						cb := bitfield.NewBitvector64()
 						cb.SetBitAt(commIdx, true)
@@ -604,7 +712,7 @@ func runCase(rt *rapid.T, maxN int) {
 				}
 				pbSet, err := core.ParSignedDataSetToProto(set)
 				must(err)
-				net.Inject(peerIDs[b], peerIDs[to], parsigex.Protocols()[0], &pbv1.ParSigExMsg{Duty: core.DutyToProto(d), DataSet: pbSet})
+				net.Inject(peerIDs[b], peerIDs[to], parsigex.Protocols()[0], &pbv1.ParSigExMsg{Duty: core.DutyToProto(sendDuty), DataSet: pbSet})
 				equivocations++
 			}
 			logf("byz(%d,%s)", b, d.Type)
@@ -635,19 +743,10 @@ func runCase(rt *rapid.T, maxN int) {
 	// consensus component level: what the nodes' duty stores were handed on decision is identical on
 	// every node and is exactly one of the candidate sets that were proposed (the decided hash's payload)
 	mu.Lock()
-	candidates := map[string]bool{}
-	for i := 0; i < n; i++ {
-		set := core.UnsignedDataSet{}
-		for pk, def := range attDefs {
-			set[pk] = core.AttestationData{Data: attData(dutySlot, nodeVariant[i]), Duty: def.(core.AttesterDefinition).AttesterDuty}
-		}
-		b, err := json.Marshal(set)
-		must(err)
-		candidates[string(b)] = true
-	}
+	candidates := proposed
 	firstDecided := map[core.Duty]decision{}
 	for _, d := range decided {
-		if !candidates[d.set] {
+		if !candidates[d.duty.String()+d.set] {
 			mu.Unlock()
 			rt.Fatalf("DECIDED PAYLOAD: node %d stored for %v a data set nobody proposed: %s", d.node, d.duty, d.set)
 		}
@@ -687,7 +786,8 @@ func runCase(rt *rapid.T, maxN int) {
 	sort.Ints(byzList)
 	vstat.Case(fmt.Sprintf("%d|%s|%v|%d|%v|%s", n, string(nodeVariant), byzList, crashes, rs, strings.Join(trace, ",")), nontrivial,
 		cls("published", nPub > 0), cls("decided_at_>=2_nodes", nDecided >= 2), cls("variants>=2", len(distinctVariants) >= 2), cls("crash", crashes > 0), cls("late_start", lateStarts > 0), cls("equivocating_share", equivocations > 0), cls("byz_sync_message_claims_slot_of_another_fork", otherFork > 0),
-		cls("attester_published", dutiesPublished[core.DutyAttester]), cls("sync_published", dutiesPublished[core.DutySyncMessage]), cls("exit_published", dutiesPublished[core.DutyExit]), fmt.Sprintf("n=%d", n))
+		cls("attester_published", dutiesPublished[core.DutyAttester]), cls("sync_published", dutiesPublished[core.DutySyncMessage]), cls("exit_published", dutiesPublished[core.DutyExit]),
+		cls("production_fetcher", realFetch), cls("proposer_flow", withProposer), cls("randao_aggregated", dutiesPublished[core.DutyRandao]), cls("block_published", dutiesPublished[core.DutyProposer]), fmt.Sprintf("n=%d", n))
 	if nontrivial && equivocations > 0 && vstat.WantSample("byzantine") {
 		vstat.Sample("byzantine", map[string]any{"n": n, "node_variants": string(nodeVariant), "byzantine": byzList, "crashes": crashes, "published_roots": rs, "events": head(trace, 60)})
 	} else if nontrivial && vstat.WantSample("plain") {
